@@ -555,7 +555,7 @@ HELPERS = ("optimal_steps_binomial", "optimal_steps_mixed",
 class C15(Base):
     ID = "C15"
     TECHNIQUE = ('deterministic simulation: multi-tenant worlds under a seeded cooperative scheduler and a seeded pre-emptive scheduler (threads released one at a time at sys.settrace line events), streams compared with pristine-process baselines')
-    EXPECTED_PROBES = ('c15_baselines', 'c15_observer_pairs', 'e3_worlds')
+    EXPECTED_PROBES = ('c15_baselines', 'c15_observer_pairs', 'e3_worlds', 'e3_excursions')
     FORK_PER_RUN = True
     SIZES = {"quick": (32, 24), "thorough": (128, 64)}
     SLOTS = {"quick": (2, 6), "thorough": (2, 40)}
@@ -688,7 +688,8 @@ class C15(Base):
             tasks = [[cfg, passes] for cfg, passes, _ in slots]
             return ListDriver([["e3", rng.getrandbits(48), tasks,
                                 rng.choice((0.002, 0.005, 0.02)),
-                                rng.choice((0.05, 0.1, 0.3))]])
+                                rng.choice((0.05, 0.1, 0.3)),
+                                rng.choice((0.0, 0.0, 0.5, 1.0))]])
         calls = []
         for _ in range(rng.randint(0, 6)):
             fn = rng.choice(HELPERS)
